@@ -137,6 +137,14 @@ func RunOne(t *testing.T, spec RunSpec) (res RunResult) {
 		res.Desc = w.Scenario.Desc
 	}
 	res.Trace = w.trace
+	if os.Getenv("VERIF_DUMPLOG") != "" {
+		for _, cl := range w.Clusters() {
+			for _, ev := range cl.Log {
+				b, _ := json.Marshal(stripTimes(map[string]any(ev.After)))
+				res.Trace = append(res.Trace, fmt.Sprintf("EVENTLOG %d %s %s %s", ev.Seq, ev.Type, ev.Key, b))
+			}
+		}
+	}
 	res.Extra = w.extra
 	return res
 }
